@@ -4,7 +4,7 @@ import json, os
 import vlib
 
 ALL_FAMILIES = ["seq2", "seq3", "alt2", "altseq", "seqalt", "grpq", "grpq2", "ncgq", "ref", "refq", "named", "look", "look2",
-                "lookg", "atom", "anchor", "anchor2", "cond", "condx", "nested", "opti", "optm", "opts", "body3", "body3g", "nlend", "atomseq"]
+                "lookg", "atom", "anchor", "anchor2", "cond", "condx", "nested", "opti", "optm", "opts", "body3", "body3g", "nlend", "atomseq", "altcat"]
 
 
 def gen_find(ctx, res, families, o, dia, rtl, alpha, maxlen, stride, offset, label, timeout=3000, variants=None):
